@@ -2727,7 +2727,7 @@ class RepeatUntil(Subconstruct):
                     obj_ = {self.subcon._compileparse(code)}
                     if not ({self.discard}):
                         list_.append(obj_)
-                    if ({self.predicate}):
+                    if (lambda this: ({self.predicate}))(obj_):
                         return list_
         """
         code.append(block)
@@ -2740,9 +2740,9 @@ class RepeatUntil(Subconstruct):
                 objiter = iter(obj)
                 list_ = ListContainer()
                 while True:
-                    obj_ = reuse(next(objiter), lambda obj: {self.subcon._compilebuild(code)})
-                    list_.append(obj_)
-                    if ({self.predicate}):
+                    obj_ = next(objiter)
+                    list_.append(reuse(obj_, lambda obj: {self.subcon._compilebuild(code)}))
+                    if (lambda this: ({self.predicate}))(obj_):
                         return list_
         """
         code.append(block)
